@@ -35,7 +35,7 @@ def h_alias(E, N, run_stages):
         E.assume(And(G['MSA_HIT_BUFFER'] >= 0, G['GROUPING_PRMS']['dt_scale'] > 0, G['LAYERING_PRMS']['gmm_kwargs']['delta_mul_gain'] > 0,
                      G['LAYERING_PRMS']['gmm_kwargs']['delta_mul_gain'] <= 1))
         P = prm.percall(E)
-        prm.valid_percall(E, P)
+        prm.valid_percall(E, P, ordered_range=False)
         fz_P, fz_G = freeze(P), freeze(G)
         ids_G = dict(containers(G))
         with WarningLog() as wl:
